@@ -374,7 +374,10 @@ theorem inv_moveOut {c : Cfg} (io : Nat → Fault) (st : St) (h : Inv c st) (ha 
     intro p hp e; rw [e] at hsrc; rw [hsrc] at hp; cases hp
   by_cases hfree : (st.fs.get { st.outPath with out := true }).isNone = true
   · simp only [hfree, if_true]
-    exact inv_renameP io st _ _ h ha (by simpa using hfree) (hne _ rfl)
+    have h2 := inv_renameP io st _ _ h ha (by simpa using hfree) (hne _ rfl)
+    by_cases hcc : c.closeClears = true
+    · rw [if_pos hcc]; exact inv_clearOut _ h2.1 h2.2
+    · rw [if_neg hcc]; exact h2
   · simp only [hfree]
     cases hsr : search (takenDst c st.fs st.filename) (fuel st.fs) (st.rev + 1) with
     | none =>
